@@ -336,6 +336,7 @@ struct X<'a> {
 	only: Option<Vec<String>>,
 	/// offer the killed-before-db-commit operation
 	killed: bool,
+	killed_sels: Vec<Sel>,
 }
 
 fn check(seam: &Seam, gen: &Block, hist: &Hist, ops: &[String], stage: &str, rep: &mut Report) -> bool {
@@ -425,9 +426,11 @@ fn dfs(x: &mut X<'_>, dir: &Path, hist: &Hist, ops: &mut Vec<String>, rep: &mut 
 	if !ops.is_empty() && ops.last().map(|s| s.as_str()) != Some("reopen") {
 		cands.push(Op::Reopen);
 	}
-	if x.killed {
-		for k in &x.ks {
-			for sel in &x.sels {
+	if x.killed && (x.only.is_some() || ops.iter().filter(|o| o.starts_with("killed")).count() < 2) {
+		// (replay offers every size and selection; exploration a narrow alphabet, at most two kills per history)
+		let (kks, ksels): (Vec<usize>, Vec<Sel>) = if x.only.is_some() { (x.ks.clone(), x.sels.clone()) } else { (vec![x.ks[0]], x.killed_sels.clone()) };
+		for k in &kks {
+			for sel in &ksels {
 				if *sel != Sel::None {
 					cands.push(Op::Killed { k: *k, sel: sel.clone() });
 				}
@@ -625,7 +628,7 @@ fn run(tier: Tier, shard: usize, n: usize) -> Report {
 		Tier::Thorough => (vec![1, 600, 1023, 1025], vec![Sel::None, Sel::FirstOfChunk0, Sel::LastOfChunk0, Sel::FirstOfChunk1, Sel::EveryOtherOfOldestChunk, Sel::AllOfLastPartialChunk, Sel::AllOfOldestChunk, Sel::AllOfChunk1], 4),
 	};
 	rep.extra.insert("bound_depth".into(), json!(depth));
-	let mut x = X { sc: &sc, gen, pool: Pool::new((depth + 1) * 1025 + 8), ks, sels, depth, memo: HashSet::new(), me: shard, n, prefix_ops: vec![], only: None, killed: false };
+	let mut x = X { sc: &sc, gen, pool: Pool::new((depth + 1) * 1025 + 8), ks, sels, depth, memo: HashSet::new(), me: shard, n, prefix_ops: vec![], only: None, killed: false, killed_sels: vec![] };
 	let hist = Hist { blocks: vec![], head: None, next_out: 0, uniq: 0 };
 	let mut ops = vec![];
 	dfs(&mut x, &root, &hist, &mut ops, &mut rep, (0, n));
@@ -633,6 +636,7 @@ fn run(tier: Tier, shard: usize, n: usize) -> Report {
 	// histories such as [block, block spending in chunk 0, fork below both] fit the depth bound
 	x.prefix_ops = vec![Op::Apply { k: 1025, sel: Sel::None, parent: None, commit: true }];
 	x.killed = true;
+	x.killed_sels = vec![Sel::FirstOfChunk0, Sel::LastOfChunk0, Sel::FirstOfChunk1];
 	if tier == Tier::Quick {
 		x.ks = vec![600];
 		x.sels = vec![Sel::None, Sel::FirstOfChunk0, Sel::LastOfChunk0, Sel::FirstOfChunk1];
@@ -647,6 +651,7 @@ fn run(tier: Tier, shard: usize, n: usize) -> Report {
 	// (what a restart rebuilds the accumulator from is the leaf set and a size)
 	x.ks = vec![1];
 	x.sels = vec![Sel::None, Sel::EveryOtherOfOldestChunk, Sel::LastOfChunk0, Sel::AllOfChunk1];
+	x.killed_sels = vec![Sel::EveryOtherOfOldestChunk, Sel::LastOfChunk0, Sel::AllOfChunk1];
 	// (the start state itself was expanded by the second start with another alphabet)
 	x.memo.clear();
 	let mut ops = vec![];
@@ -690,7 +695,7 @@ impl Engine for C15 {
 		}
 		let all_sels = vec![Sel::None, Sel::FirstOfChunk0, Sel::LastOfChunk0, Sel::FirstOfChunk1, Sel::EveryOtherOfOldestChunk, Sel::AllOfLastPartialChunk, Sel::AllOfOldestChunk, Sel::AllOfChunk1];
 		let depth = only.len();
-		let mut x = X { sc: &sc, gen, pool: Pool::new((depth + 1) * 1025 + 8), ks: vec![1, 600, 1023, 1024, 1025], sels: all_sels, depth, memo: HashSet::new(), me: 0, n: 1, prefix_ops: vec![], only: Some(only.clone()), killed: true };
+		let mut x = X { sc: &sc, gen, pool: Pool::new((depth + 1) * 1025 + 8), ks: vec![1, 600, 1023, 1024, 1025], sels: all_sels, depth, memo: HashSet::new(), me: 0, n: 1, prefix_ops: vec![], only: Some(only.clone()), killed: true, killed_sels: vec![] };
 		let hist = Hist { blocks: vec![], head: None, next_out: 0, uniq: 0 };
 		let mut rep = Report::new();
 		let mut ops = vec![];
